@@ -9,7 +9,7 @@
 //! cases here have `depth .. depth + 2` variables, random dense operands and a random variable
 //! order; the oracle is the truth-table model through the independent interpreter.
 
-use oxidd::{BooleanFunction, HasLevel, HasWorkers, Manager, ManagerRef, Subst, WorkerPool};
+use oxidd::{BooleanFunction, Function, HasLevel, HasWorkers, Manager, ManagerRef, Subst, WorkerPool};
 use oxidd_core::function::INodeOfFunc;
 
 use crate::kinds::*;
@@ -222,4 +222,361 @@ pub fn sets(ctx: &mut Ctx) {
     let cases = ctx.by_tier(3, 60);
     deep_kind::<Zbdd>(ctx, &mut rng, cases, Mode::Sets);
     ctx.sample(|| "deep: 2..8 workers with the automatic split depth, n = depth..depth+2 variables, random order, dense random families: subset0/subset1/change/union/intsec/diff, result interpreted under all 2^n assignments".into());
+}
+
+/// C15: DDDMP round trip of LARGE diagrams (thousands of nodes, several roots). Node references
+/// above 1536 / 16384 and every escaped byte value of the binary encoding only occur in files of
+/// this size. Export in binary and ASCII mode, import into the exporting manager (handles must be
+/// identical) and into a fresh manager (tables must be equal under the independent interpreter).
+fn dddmp_large_kind<K: BoolKind>(ctx: &mut Ctx, rng: &mut crate::rng::Rng, cases: usize)
+where
+    for<'id> MgrOf<'id, K>: HasWorkers,
+    for<'x> INodeOfFunc<'x, K::F>: HasLevel,
+{
+    let k = K::NAME;
+    for _ in 0..cases {
+        let n = rng.range(12, 15) as u32;
+        let mref = K::new_manager(1 << 20, 1 << 12, 1);
+        mref.with_manager_exclusive(|m| m.add_vars(n));
+        let order = rng.perm(n as usize);
+        set_order(&mref, &order);
+        let nroots = rng.range(1, 3);
+        let fs: Vec<(K::F, Tt)> = (0..nroots)
+            .map(|i| {
+                let t = if i == 0 { Tt::random(n, rng) } else { Tt::random_biased(n, rng) };
+                (build_fast::<K>(&mref, &t), t)
+            })
+            .collect();
+        let nodes = mref.with_manager_shared(|m| m.num_inner_nodes());
+        ctx.count_max("max_nodes_in_exported_manager", nodes as u64);
+        let label = format!("dddmp large {k} n={n} order {order:?} roots {nroots} nodes {nodes}");
+        println!("@@{{\"t\":\"case\",\"case\":{}}}", crate::ctx::json_str(&label));
+        for (how, mode) in [(1u32, "binary"), (0u32, "ascii")] {
+            let roots: Vec<&K::F> = fs.iter().map(|x| &x.0).collect();
+            let Some(bytes) = K::export(&mref, &roots, how) else {
+                ctx.violation(&format!("{k}:dddmp-large:{mode}:export-failed"), label.clone());
+                continue;
+            };
+            ctx.count("large_files_exported", 1);
+            ctx.count_max("max_file_bytes", bytes.len() as u64);
+            // same manager: identical handles
+            ctx.eval();
+            match K::import(&mref, &bytes) {
+                Ok(back) => {
+                    if back.len() != fs.len() || back.iter().zip(&fs).any(|(b, (f, _))| b != f) {
+                        ctx.violation(&format!("{k}:dddmp-large:{mode}:reimport-into-same-manager-differs"), label.clone());
+                    }
+                }
+                Err(e) => ctx.violation(&format!("{k}:dddmp-large:{mode}:own-file-rejected"), format!("{label}: {e}")),
+            }
+            // fresh manager with the same order: equal tables
+            let m2 = K::new_manager(1 << 20, 1 << 12, 1);
+            m2.with_manager_exclusive(|m| m.add_vars(n));
+            set_order(&m2, &order);
+            ctx.eval();
+            match K::import(&m2, &bytes) {
+                Ok(back) => {
+                    for (i, (b, (_, t))) in back.iter().zip(&fs).enumerate() {
+                        let bt = interp_tt::<K>(b);
+                        if bt != *t {
+                            ctx.violation(
+                                &format!("{k}:dddmp-large:{mode}:imported-function-differs"),
+                                format!("{label}: root {i}: {} of {} assignments differ", bt.xor(t).count_ones(), t.size()),
+                            );
+                        } else {
+                            ctx.distinct((k, mode, n, nodes, i));
+                        }
+                    }
+                    let s = m2.with_manager_exclusive(|m| crate::audit::structural(&*m, K::rule(), &|_| false));
+                    for (clause, detail) in s.errs.iter().take(3) {
+                        ctx.violation(&format!("{k}:dddmp-large:{mode}:structure:{clause}"), format!("{label}: {detail}"));
+                    }
+                }
+                Err(e) => ctx.violation(&format!("{k}:dddmp-large:{mode}:own-file-rejected"), format!("{label} (fresh manager): {e}")),
+            }
+        }
+    }
+}
+
+pub fn dddmp_large(ctx: &mut Ctx) {
+    let mut rng = ctx.rng(0xDEE9_15);
+    let cases = ctx.by_tier(2, 40);
+    dddmp_large_kind::<Bcdd>(ctx, &mut rng, cases);
+    dddmp_large_kind::<Bdd>(ctx, &mut rng, cases);
+    dddmp_large_kind::<Zbdd>(ctx, &mut rng, cases);
+    ctx.sample(|| "DDDMP round trip of dense random functions over 12..15 variables (thousands of nodes, 1..3 roots), binary and ASCII, into the exporting and into a fresh manager".into());
+}
+
+// ------------------------------------------------------------------------------------------
+// wide managers: 31..200 variables, functions over 6 scattered "active" ones
+// ------------------------------------------------------------------------------------------
+
+/// Independent interpretation under an assignment given per variable (any number of variables)
+fn interp_wide<'id, K: BoolKind>(m: &MgrOf<'id, K>, root: &oxidd_core::function::EdgeOfFunc<'id, K::F>, a: &[bool]) -> bool
+where
+    for<'x> INodeOfFunc<'x, K::F>: HasLevel,
+{
+    use oxidd::{Edge, InnerNode, Node};
+    use oxidd_core::Countable;
+    fn walk<'id, K: BoolKind>(m: &MgrOf<'id, K>, e: &oxidd_core::function::EdgeOfFunc<'id, K::F>, a: &[bool], neg: &mut bool, next_level: &mut u32) -> bool
+    where
+        for<'x> INodeOfFunc<'x, K::F>: HasLevel,
+    {
+        if K::SEM == Sem::Complement && e.tag().as_usize() == 1 {
+            *neg = !*neg;
+        }
+        match m.get_node(e) {
+            Node::Inner(n) => {
+                let l = n.level();
+                if K::SEM == Sem::ZeroSup {
+                    for s in *next_level..l {
+                        if a[m.level_to_var(s) as usize] {
+                            return false;
+                        }
+                    }
+                    *next_level = l + 1;
+                }
+                let c = n.child(if a[m.level_to_var(l) as usize] { 0 } else { 1 });
+                walk::<K>(m, &c, a, neg, next_level)
+            }
+            Node::Terminal(t) => {
+                use std::borrow::Borrow;
+                if K::SEM == Sem::ZeroSup {
+                    for s in *next_level..m.num_levels() {
+                        if a[m.level_to_var(s) as usize] {
+                            return false;
+                        }
+                    }
+                }
+                K::term(t.borrow()) ^ *neg
+            }
+        }
+    }
+    walk::<K>(m, root, a, &mut false, &mut 0)
+}
+
+fn wide_kind<K: BoolKind>(ctx: &mut Ctx, rng: &mut crate::rng::Rng, cases: usize, mode: Mode)
+where
+    for<'id> MgrOf<'id, K>: HasWorkers,
+    for<'x> INodeOfFunc<'x, K::F>: HasLevel,
+{
+    use oxidd::util::OptBool;
+    let k = K::NAME;
+    const A: u32 = 6; // active variables
+    for _ in 0..cases {
+        let n = *rng.pick(&[31u32, 32, 33, 63, 64, 65, 96, 127, 128, 129, 200]);
+        let threads = if rng.chance(1, 3) { 4 } else { 1 };
+        let mref = setup::<K>(1 << 16, 1 << rng.range(4, 12), threads, n);
+        // active variables: word boundaries of 32/64-bit bit sets first, then random ones
+        let mut act: Vec<u32> = [0, n - 1, 31, 32, 63, 64, 127, 128].into_iter().filter(|&v| v < n).collect();
+        act.sort();
+        act.dedup();
+        rng.shuffle(&mut act);
+        act.truncate(rng.range(2, 4));
+        while act.len() < A as usize {
+            let v = rng.below(n as u64) as u32;
+            if !act.contains(&v) {
+                act.push(v);
+            }
+        }
+        act.sort();
+        let order = rng.perm(n as usize);
+        set_order(&mref, &order);
+        let label = format!("wide {k} n={n} threads={threads} active {act:?}");
+        println!("@@{{\"t\":\"case\",\"case\":{}}}", crate::ctx::json_str(&label));
+        ctx.count("wide_cases", 1);
+        let build = |t: &Tt| -> K::F {
+            fn rec<K: BoolKind>(m: &MgrOf<'_, K>, t: &Tt, act: &[u32], v: u32, a: usize) -> K::F {
+                if v == t.n {
+                    return if t.get(a) { K::F::t(m) } else { K::F::f(m) };
+                }
+                let hi = rec::<K>(m, t, act, v + 1, a | (1 << v));
+                let lo = rec::<K>(m, t, act, v + 1, a);
+                if hi == lo {
+                    return hi;
+                }
+                K::F::var(m, act[v as usize]).unwrap().ite(&hi, &lo).unwrap()
+            }
+            mref.with_manager_shared(|m| rec::<K>(m, t, &act, 0, 0))
+        };
+        let project = |full: &[bool]| -> usize { (0..A as usize).fold(0, |acc, i| acc | ((full[act[i] as usize] as usize) << i)) };
+        // oracle: eval + independent interpretation on assignments over ALL n variables
+        let verify = |ctx: &mut Ctx, rng: &mut crate::rng::Rng, r: &K::F, want: &Tt, what: &str| -> bool {
+            for round in 0..(64 + 64 + 40) {
+                let full: Vec<bool> = if round < 128 {
+                    // every assignment of the active variables, the others all false / all true
+                    let a = round % 64;
+                    (0..n).map(|v| match act.iter().position(|&x| x == v) {
+                        Some(i) => (a >> i) & 1 == 1,
+                        None => round >= 64,
+                    }).collect()
+                } else {
+                    (0..n).map(|_| rng.chance(1, 2)).collect()
+                };
+                // under the zero-suppressed reading an inactive variable set to true is part of
+                // the Boolean function as well: the functions here are built with Boolean
+                // connectives over `var(v)`, so they do not depend on inactive variables
+                let w = want.get(project(&full));
+                let ev = r.eval(full.iter().enumerate().map(|(v, &b)| (v as u32, b)));
+                let it = r.with_manager_shared(|m, e| interp_wide::<K>(m, e, &full));
+                ctx.eval();
+                if ev != w || it != w {
+                    let ones: Vec<usize> = full.iter().enumerate().filter(|x| *x.1).map(|x| x.0).collect();
+                    ctx.violation(&format!("{k}:wide:{}:wrong-value", what.split(' ').next().unwrap()), format!("{label}: {what}: variables set {ones:?}: eval {ev} interp {it} want {w}"));
+                    return false;
+                }
+            }
+            true
+        };
+        let fs: Vec<(K::F, Tt)> = (0..5)
+            .map(|i| {
+                let t = if i % 2 == 0 { Tt::random(A, rng) } else { Tt::random_biased(A, rng) };
+                (build(&t), t)
+            })
+            .collect();
+        for (f, t) in &fs {
+            verify(ctx, rng, f, t, "build");
+        }
+        let cube_of = |lits: &[(u32, bool)]| {
+            mref.with_manager_shared(|m| {
+                let mut c = K::F::t(m);
+                for &(v, b) in lits {
+                    let l = if b { K::F::var(m, v).unwrap() } else { K::F::not_var(m, v).unwrap() };
+                    c = c.and(&l).unwrap();
+                }
+                c
+            })
+        };
+        for _ in 0..24 {
+            let (f, ft) = rng.pick(&fs);
+            let (g, gt) = rng.pick(&fs);
+            let (h, ht) = rng.pick(&fs);
+            // active positions and some inactive variables
+            let amask = rng.below(1 << A) as u32;
+            let apos: Vec<u32> = (0..A).filter(|i| (amask >> i) & 1 == 1).collect();
+            let mut inactive: Vec<u32> = Vec::new();
+            for _ in 0..rng.range(0, 3) {
+                let v = rng.below(n as u64) as u32;
+                if !act.contains(&v) && !inactive.contains(&v) {
+                    inactive.push(v);
+                }
+            }
+            let (r, want, what): (K::F, Tt, String) = match mode {
+                Mode::Connectives | Mode::Sets => match rng.below(10) {
+                    0 | 1 => (f.ite(g, h).unwrap(), ft.ite(gt, ht), "ite".into()),
+                    2 => (f.not().unwrap(), ft.not(), "not".into()),
+                    3 => {
+                        // pick_cube: any completion of the cube must satisfy f
+                        if let Some(c) = f.pick_cube(|_, _, _| rng.chance(1, 2)) {
+                            ctx.eval();
+                            if c.len() != n as usize {
+                                ctx.violation(&format!("{k}:wide:pick_cube:length"), format!("{label}: {} entries", c.len()));
+                            } else {
+                                for _ in 0..8 {
+                                    let full: Vec<bool> = c.iter().map(|o| match o {
+                                        OptBool::True => true,
+                                        OptBool::False => false,
+                                        OptBool::None => rng.chance(1, 2),
+                                    }).collect();
+                                    if !ft.get(project(&full)) {
+                                        ctx.violation(&format!("{k}:wide:pick_cube:not-an-implicant"), format!("{label}: f={ft} cube fixes {:?}", c.iter().enumerate().filter(|x| *x.1 != OptBool::None).map(|x| (x.0, *x.1 == OptBool::True)).collect::<Vec<_>>()));
+                                        break;
+                                    }
+                                }
+                            }
+                        } else if !ft.is_zero() {
+                            ctx.violation(&format!("{k}:wide:pick_cube:none-for-satisfiable"), format!("{label}: f={ft}"));
+                        }
+                        continue;
+                    }
+                    _ => {
+                        let op = *rng.pick(&ALL_BOPS);
+                        (crate::mon::c02::apply_bop(op, f, g), ft.bop(op, gt), op.name().to_string())
+                    }
+                },
+                Mode::Quant => {
+                    let avars: Vec<u32> = apos.iter().map(|&i| act[i as usize]).collect();
+                    let mut all_vars = avars.clone();
+                    all_vars.extend(&inactive);
+                    rng.shuffle(&mut all_vars);
+                    match rng.below(4) {
+                        0 => {
+                            let q = *rng.pick(&ALL_QUANTS);
+                            let vs = cube_of(&all_vars.iter().map(|&v| (v, true)).collect::<Vec<_>>());
+                            // unique quantification over a variable the function does not depend on gives false
+                            let mut want = ft.quant(q, &apos);
+                            if q == crate::tt::Quant::Unique && !inactive.is_empty() {
+                                want = Tt::zero(A);
+                            }
+                            (K::quant(q, f, &vs).unwrap(), want, format!("quant {q:?} {all_vars:?}"))
+                        }
+                        1 => {
+                            let q = *rng.pick(&ALL_QUANTS);
+                            let op = *rng.pick(&ALL_BOPS);
+                            let vs = cube_of(&all_vars.iter().map(|&v| (v, true)).collect::<Vec<_>>());
+                            let mut want = ft.bop(op, gt).quant(q, &apos);
+                            if q == crate::tt::Quant::Unique && !inactive.is_empty() {
+                                want = Tt::zero(A);
+                            }
+                            (K::apply_quant(q, op, f, g, &vs).unwrap(), want, format!("apply_quant {q:?} {} {all_vars:?}", op.name()))
+                        }
+                        2 => {
+                            let mut model: Vec<Option<Tt>> = vec![None; A as usize];
+                            let (mut svars, mut reps) = (Vec::new(), Vec::new());
+                            for &i in &apos {
+                                let (h, ht) = rng.pick(&fs);
+                                svars.push(act[i as usize]);
+                                reps.push(h.clone());
+                                model[i as usize] = Some(ht.clone());
+                            }
+                            for &v in &inactive {
+                                // replacing a variable the function does not depend on changes nothing
+                                svars.push(v);
+                                reps.push(rng.pick(&fs).0.clone());
+                            }
+                            if svars.is_empty() {
+                                continue;
+                            }
+                            let s = Subst::new(svars.clone(), reps);
+                            (K::substitute(f, &s).unwrap(), ft.compose(&model), format!("substitute {svars:?}"))
+                        }
+                        _ => {
+                            let alits: Vec<(u32, bool)> = apos.iter().map(|&i| (i, rng.chance(1, 2))).collect();
+                            let mut lits: Vec<(u32, bool)> = alits.iter().map(|&(i, b)| (act[i as usize], b)).collect();
+                            lits.extend(inactive.iter().map(|&v| (v, rng.chance(1, 2))));
+                            rng.shuffle(&mut lits);
+                            let c = cube_of(&lits);
+                            (f.restrict(&c).unwrap(), ft.restrict(&alits), format!("restrict {lits:?}"))
+                        }
+                    }
+                }
+            };
+            if verify(ctx, rng, &r, &want, &what) && !want.is_const() {
+                ctx.distinct((k, what.split(' ').next().unwrap().to_string(), want.as_u64(), n));
+            }
+        }
+        let s = mref.with_manager_exclusive(|m| crate::audit::structural(&*m, K::rule(), &|_| false));
+        for (clause, detail) in s.errs.iter().take(3) {
+            ctx.violation(&format!("{k}:wide:structure:{clause}"), format!("{label}: {detail}"));
+        }
+    }
+}
+
+/// C02 on managers with 31..200 variables (bit-set word boundaries in eval / pick_cube / level maps)
+pub fn wide_connectives(ctx: &mut Ctx) {
+    let mut rng = ctx.rng(0x01DE_02);
+    let cases = ctx.by_tier(6, 200);
+    wide_kind::<Bdd>(ctx, &mut rng, cases, Mode::Connectives);
+    wide_kind::<Bcdd>(ctx, &mut rng, cases, Mode::Connectives);
+    wide_kind::<Zbdd>(ctx, &mut rng, cases, Mode::Connectives);
+    ctx.sample(|| "wide: managers with 31/32/33/63/64/65/96/127/128/129/200 variables in random order, functions over 6 active variables (word boundaries preferred): connectives/ite/not/pick_cube, each result evaluated (eval + independent interpreter) on 168 assignments of ALL variables".into());
+}
+
+/// C04 on managers with 31..200 variables: variable sets / cubes / substitutions that mention inactive variables
+pub fn wide_quant(ctx: &mut Ctx) {
+    let mut rng = ctx.rng(0x01DE_04);
+    let cases = ctx.by_tier(6, 200);
+    wide_kind::<Bdd>(ctx, &mut rng, cases, Mode::Quant);
+    wide_kind::<Bcdd>(ctx, &mut rng, cases, Mode::Quant);
+    ctx.sample(|| "wide: managers with 31..200 variables: quant / apply_quant / substitute / restrict whose variable sets, cubes and substitutions also mention variables the operands do not depend on".into());
 }
